@@ -167,6 +167,9 @@ func (env *SpecEnv) modTargets(exprs []*SExpr) (out []modTarget) {
 					t.idx = nil
 					out = append(out, t)
 				}
+			case m.Kind == SIdent && vc.eng.contracts.GhostVars[m.Name] != nil:
+				gty := env.resolveTypeIn(vc.eng.contracts.GhostVars[m.Name])
+				out = append(out, modTarget{key: "G$ghost." + m.Name, sort: ghostSort(gty)})
 			case m.Kind == SSel:
 				// x.f
 				x := env.eval(m.X)
